@@ -100,12 +100,30 @@ class Closure(object):
         self.interp, self.node, self.ctx, self.frame, self.owner, self.bound, self.kind = interp, node, ctx, frame, owner, bound, kind
         self.name = getattr(node, "name", "<lambda>")
         self.cm = cm             # decorated with contextlib.contextmanager: a call yields a GenContext instead of running the body
+        self.defaults = None     # (values of positional defaults, values of keyword-only defaults), evaluated ONCE: at the definition for a nested
+                                 # function / lambda, at the first call for a module-level function or method (whose definition is not "run")
 
     def __repr__(self):
         return "<function %s>" % self.name
 
     def bind(self, obj):
-        return Closure(self.interp, self.node, self.ctx, self.frame, self.owner, obj, self.kind, self.cm)
+        c = Closure(self.interp, self.node, self.ctx, self.frame, self.owner, obj, self.kind, self.cm)
+        c.defaults = self.defaults
+        return c
+
+    def eval_defaults(self):
+        if self.defaults is None:
+            it, a = self.interp, self.node.args
+            if self.frame is None:
+                cache = it.__dict__.setdefault("_fn_defaults", {})
+                if id(self.node) not in cache:
+                    dfr = Frame(self.ctx, None)
+                    cache[id(self.node)] = ([it.ev(d, dfr) for d in a.defaults], [None if d is None else it.ev(d, dfr) for d in a.kw_defaults])
+                self.defaults = cache[id(self.node)]
+            else:
+                dfr = Frame(self.ctx, self.frame)
+                self.defaults = ([it.ev(d, dfr) for d in a.defaults], [None if d is None else it.ev(d, dfr) for d in a.kw_defaults])
+        return self.defaults
 
     def __eq__(self, o):
         return isinstance(o, Closure) and o.node is self.node and o.bound is self.bound
@@ -353,6 +371,49 @@ def build_real_enum(interp, cref):
     return cls
 
 
+def build_real_exception(interp, cref):
+    """a repository class derived from a builtin exception type (directly or through another such repository class): a real exception class whose methods run
+    the repository's code through the interpreter, so that it can be raised, caught by `except`, and carries .args / str() like the real thing"""
+    try:
+        bases = cref.bases()
+    except Exception:
+        return None
+    if not bases or not all(isinstance(b, type) and issubclass(b, BaseException) for b in bases):
+        return None
+    ns = {}
+    fr = Frame(cref.ctx)
+
+    def method(cl):
+        def f(self_, *a, **k):
+            return interp.call(cl.bind(self_), list(a), k)
+        f.__name__ = cl.name
+        return f
+    for st in cref.node.body:
+        if isinstance(st, ast.FunctionDef):
+            decos = [d.id if isinstance(d, ast.Name) else (d.attr if isinstance(d, ast.Attribute) else "?") for d in st.decorator_list]
+            cl = Closure(interp, st, cref.ctx, None, cref, None, "function")
+            if "property" in decos:
+                ns[st.name] = property(method(cl))
+            elif "classmethod" in decos:
+                ns[st.name] = classmethod(method(cl))
+            elif "staticmethod" in decos:
+                ns[st.name] = staticmethod(lambda *a, _cl=cl, **k: interp.call(_cl, list(a), k))
+            elif decos:
+                raise Unsupported("exception class %s: method %s carries the decorator %s" % (cref.name, st.name, decos))
+            else:
+                ns[st.name] = method(cl)
+        elif isinstance(st, ast.Assign) and len(st.targets) == 1 and isinstance(st.targets[0], ast.Name):
+            ns[st.targets[0].id] = interp.ev(st.value, fr)
+        elif isinstance(st, (ast.Pass, ast.Expr)):
+            continue
+        else:
+            raise Unsupported("exception class %s: statement %s in the class body" % (cref.name, type(st).__name__))
+    ns["_sa_mock"] = True
+    ns["_sa_strict_program"] = True
+    ns["_sa_repo_class"] = cref.name
+    return type(cref.name, tuple(bases), ns)
+
+
 class IntEnumMember(int):
     """value of a member of a repository class derived from enum.IntEnum (or an int-valued enum.Enum): compares and hashes as its int"""
     _sa_mock = True
@@ -375,7 +436,26 @@ class Instance(object):
         object.__setattr__(self, "_attrs", {})
 
     def __repr__(self):
+        m = self._sa_special("__repr__")
+        if m is not None and not object.__getattribute__(self, "_attrs").get("_sa_in_repr"):
+            try:
+                r = m()
+                if isinstance(r, str):
+                    return r
+            except Exception:
+                pass
         return "<%s instance>" % self._cls.name
+
+    def __str__(self):
+        m = self._sa_special("__str__")
+        if m is not None:
+            try:
+                r = m()
+                if isinstance(r, str):
+                    return r
+            except Exception:
+                pass
+        return self.__repr__()
 
     def __getattr__(self, a):            # only used by Python-side helpers of the rules
         if a in self._attrs:
@@ -384,6 +464,67 @@ class Instance(object):
 
     def __setattr__(self, a, v):
         self._attrs[a] = v
+
+    # -- Python-level protocol of an instance of a repository class: when the class defines the special method it is run through the interpreter, so that the
+    #    host's own sorted() / set() / dict keys / `in` on containers behave as they would for the real object
+    def _sa_special(self, name):
+        cls = object.__getattribute__(self, "_cls")
+        try:
+            m, _c = cls.find(name)
+        except Exception:
+            return None
+        if isinstance(m, Closure) and m.kind == "function":
+            return m.bind(self)
+        return None
+
+    def __lt__(self, other):
+        m = self._sa_special("__lt__")
+        return m(other) if m is not None else NotImplemented
+
+    def __le__(self, other):
+        m = self._sa_special("__le__")
+        return m(other) if m is not None else NotImplemented
+
+    def __gt__(self, other):
+        m = self._sa_special("__gt__")
+        return m(other) if m is not None else NotImplemented
+
+    def __ge__(self, other):
+        m = self._sa_special("__ge__")
+        return m(other) if m is not None else NotImplemented
+
+    def __eq__(self, other):
+        if other is self:
+            return True
+        m = self._sa_special("__eq__")
+        if m is None:
+            return NotImplemented
+        r = m(other)
+        return r if r is NotImplemented else bool(r)
+
+    def __ne__(self, other):
+        r = self.__eq__(other)
+        return r if r is NotImplemented else not r
+
+    def __hash__(self):
+        cls = object.__getattribute__(self, "_cls")
+        try:
+            chain = [c for c in cls.mro() if isinstance(c, ClassRef)]
+        except Exception:
+            chain = [cls]
+        for c in chain:                  # Python: the first class of the MRO defining __eq__ or __hash__ decides; __eq__ alone makes instances unhashable
+            mem = c.members()
+            if "__hash__" in mem:
+                m = mem["__hash__"]
+                if isinstance(m, Closure):
+                    return m.bind(self)()
+                raise TypeError("unhashable type: '%s'" % cls.name)
+            if "__eq__" in mem:
+                raise TypeError("unhashable type: '%s'" % cls.name)
+        return object.__hash__(self)
+
+    def __bool__(self):
+        return self._cls.interp.truth(self)
 
 
 class SuperProxy(object):
@@ -493,7 +634,7 @@ class ModCtx(object):
             v = Closure(it, b, self, cm=_is_contextmanager(b))
         elif isinstance(b, ast.ClassDef):
             v = ClassRef(it, b, self)
-            real = build_real_enum(it, v)
+            real = build_real_enum(it, v) or build_real_exception(it, v)
             if real is not None:
                 v = real
         elif b[0] == "import":
@@ -788,6 +929,11 @@ class Interp(object):
             v = self.world.override(obj._ctx.modname + ".__version__")
             if v is not _MISSING:
                 return v
+        if isinstance(obj, super):
+            try:
+                return getattr(obj, attr)         # the real super object of a repository enum / exception class
+            except AttributeError as e:
+                raise ProgramError(e, getattr(node, "lineno", None))
         if attr == "__dict__" and isinstance(obj, Instance):
             return obj._attrs           # the instance dictionary itself (options classes store through self.__dict__[name] = value)
         if attr.startswith("__") and attr not in ("__name__", "__class__") and not (attr == "__init__" and isinstance(obj, (Instance, ClassRef, SuperProxy))) \
@@ -865,8 +1011,13 @@ class Interp(object):
         raise ProgramError(AttributeError("module %s has no attribute %s" % (ctx.modname, attr)))
 
     def _member(self, m, cls, inst, klass=None):
+        if isinstance(m, tuple) and m[0] == "val":
+            return m[1]                       # a class attribute assigned at run time (Counter.n_made += 1)
         if isinstance(m, tuple) and m[0] == "expr":
-            v = self.ev(m[1], Frame(cls.ctx))
+            vals = cls.__dict__.setdefault("_attr_values", {})
+            if id(m[1]) not in vals:          # the class body runs once: a mutable class attribute is ONE object shared by all readers
+                vals[id(m[1])] = self.ev(m[1], Frame(cls.ctx))
+            v = vals[id(m[1])]
             kind = cls.enum_kind() if isinstance(cls, ClassRef) else None
             if kind is not None and isinstance(v, int) and not isinstance(v, bool) and not isinstance(v, IntEnumMember):
                 # a member of an enum.IntEnum / enum.Enum class of the repository (OperationEnum.mul): an int that also answers .value / .name
@@ -905,7 +1056,15 @@ class Interp(object):
         if isinstance(obj, AutoMock):
             setattr(obj, attr, val)
             return
-        if isinstance(obj, (ClassRef, RepoModule, Closure)):
+        if isinstance(obj, ClassRef):
+            prev = obj.members().get(attr)
+            if isinstance(prev, Closure) or (prev is None and obj.find(attr)[0] is not None and isinstance(obj.find(attr)[0], Closure)):
+                raise Unsupported("store to attribute %s of %r replaces a method" % (attr, obj))
+            if obj.enum_kind() is not None:
+                raise Unsupported("store to attribute %s of the enum class %r" % (attr, obj))
+            obj.members()[attr] = ("val", val)
+            return
+        if isinstance(obj, (RepoModule, Closure)):
             raise Unsupported("store to attribute %s of %r" % (attr, obj))
         if getattr(obj, "_sa_mock", False):
             try:
@@ -1017,8 +1176,7 @@ class Interp(object):
         a = node.args
         params = [p.arg for p in a.posonlyargs + a.args]
         env = fr.env
-        defaults = a.defaults
-        dfr = Frame(c.ctx, c.frame)
+        defaults, kw_defaults = c.eval_defaults()
         if len(args) > len(params):
             if a.vararg is None:
                 raise ProgramError(TypeError("%s() takes %d positional arguments but %d were given" % (c.name, len(params), len(args))))
@@ -1043,10 +1201,10 @@ class Interp(object):
             env[a.kwarg.arg] = extra
         for p, d in zip(params[len(params) - len(defaults):], defaults):
             if p not in env:
-                env[p] = self.ev(d, dfr)
-        for p, d in zip(kwonly, a.kw_defaults):
-            if p not in env and d is not None:
-                env[p] = self.ev(d, dfr)
+                env[p] = d
+        for p, d, dn in zip(kwonly, kw_defaults, a.kw_defaults):
+            if p not in env and dn is not None:
+                env[p] = d
         for p in params + kwonly:
             if p not in env:
                 raise ProgramError(TypeError("%s() missing required argument %r" % (c.name, p)))
@@ -1316,7 +1474,9 @@ class Interp(object):
             raise ProgramError(e, getattr(node, "lineno", None))
 
     def e_Lambda(self, n, fr):
-        return Closure(self, n, fr.ctx, fr, fr.owner)
+        c = Closure(self, n, fr.ctx, fr, fr.owner)
+        c.eval_defaults()
+        return c
 
     def e_Starred(self, n, fr):
         raise Unsupported("starred expression outside a call/display")
@@ -1395,6 +1555,10 @@ class Interp(object):
             import enum as _enum_
             if isinstance(inst, _enum_.Enum) and getattr(type(inst), "_sa_repo_enum", None):
                 return super(type(inst), inst)           # a method of a repository enum class (built as a real Enum): the real super object (value, name)
+            if isinstance(inst, BaseException) and getattr(type(inst), "_sa_repo_class", None) and isinstance(start, ClassRef):
+                for k_ in type(inst).__mro__:
+                    if k_.__dict__.get("_sa_repo_class") == start.name:
+                        return super(k_, inst)           # a method of a repository exception class (built as a real exception class)
             if not isinstance(start, ClassRef) or not isinstance(inst, Instance):
                 raise Unsupported("super() on unmodelled class")
             return SuperProxy(inst, start)
@@ -1740,7 +1904,9 @@ class Interp(object):
         cm = _is_contextmanager(s)
         if s.decorator_list and not (cm and len(s.decorator_list) == 1):
             raise Unsupported("decorated nested function %s" % s.name)
-        fr.env[s.name] = Closure(self, s, fr.ctx, fr, fr.owner, cm=cm)
+        c = Closure(self, s, fr.ctx, fr, fr.owner, cm=cm)
+        c.eval_defaults()
+        fr.env[s.name] = c
 
     def s_ClassDef(self, s, fr):
         raise Unsupported("nested class definition %s" % s.name)
@@ -2120,7 +2286,7 @@ def stdlib_overrides(state=None):
     sparse.csr = Namespace("scipy.sparse.csr", csr_matrix=CSR)
     scipy_ns = Namespace("scipy", sparse=sparse, optimize=AutoMock("scipy.optimize"))
     coll = Namespace("collections", OrderedDict=collections.OrderedDict, defaultdict=collections.defaultdict, deque=collections.deque, Counter=collections.Counter,
-                     abc=AutoMock("collections.abc"))
+                     namedtuple=collections.namedtuple, ChainMap=collections.ChainMap, abc=AutoMock("collections.abc"))
     it = Namespace("itertools", chain=itertools.chain, product=itertools.product, combinations=itertools.combinations, permutations=itertools.permutations,
                    repeat=itertools.repeat, count=itertools.count, islice=itertools.islice, groupby=itertools.groupby, zip_longest=itertools.zip_longest,
                    accumulate=itertools.accumulate, starmap=itertools.starmap)
